@@ -44,9 +44,10 @@ const (
 	siteIter  = "store.IterateUnConfirms:before-walk"
 	sitePut   = "store.FileQueue.Put:between-empty-and-flush"
 	sitePutB  = "store.FileQueue.PutBatch:between-empty-and-flush"
+	siteWB    = "store.SyncFileDB.start:before-put"
 )
 
-var allSites = []string{siteSig, siteBatch, siteIter, sitePut, sitePutB}
+var allSites = []string{siteSig, siteBatch, siteIter, sitePut, sitePutB, siteWB}
 
 // TBlock is one pre-built block.
 type TBlock struct {
